@@ -777,6 +777,27 @@ func genCase(r *hlib.Rng, nops int, focus string, res *hlib.Result) []string {
 				emit("onew", "onew")
 			case r.Chance(1, 4):
 				emit("ocopy", "ocopy")
+				if r.Chance(1, 2) {
+					// isolation of the copy: the FIRST write after the copy is a remove-returning-previous
+					// (or a plain remove / insert) on one of the two overlays, then the other one is read
+					k := g.key()
+					switch r.Intn(4) {
+					case 0:
+						emit("remove", fmt.Sprintf("remove %d %s", levels, hx(k)))
+					case 1:
+						emit("insert", fmt.Sprintf("insert %d %s %s", levels, hx(k), hx(genValue(r))))
+					default:
+						emit("remx", fmt.Sprintf("remx %d %s", levels, hx(k)))
+					}
+					emit("oswap", "oswap")
+					emit("get", fmt.Sprintf("get %d %s", levels, hx(k)))
+					emit("iter", fmt.Sprintf("iter %d %s %d", levels, hx(k), 1+r.Intn(4)))
+					if r.Bool() {
+						emit("oswap", "oswap")
+						emit("get", fmt.Sprintf("get %d %s", levels, hx(k)))
+					}
+					res.Count("gen:copy-isolation-burst")
+				}
 			case r.Chance(1, 3):
 				emit("oswap", "oswap")
 			case r.Chance(2, 3):
